@@ -1,0 +1,162 @@
+//go:build verif
+// +build verif
+
+package leveldb
+
+import (
+	"fmt"
+
+	"github.com/syndtr/goleveldb/leveldb/errors"
+	"github.com/syndtr/goleveldb/leveldb/storage"
+)
+
+// Direct drive of tableCompactionBuilder for the correspondence check of its resume logic: a compaction over one
+// whole level is built on the current version, the builder's run is called attempt after attempt (the caller arms
+// storage faults before each), the builder's and the compaction's snapshot fields are recorded after every attempt,
+// and the tables of the successful attempt are read back.  Nothing is committed: the written tables are removed
+// again.  The builder runs with db == nil (no pause/close polling), as the field's nil test in appendKV allows.
+
+// VerifBuildAttempt is the builder's state after one call of run.
+type VerifBuildAttempt struct {
+	Err     string // "" = run returned nil
+	Corrupt bool   // errors.IsCorrupted(err)
+	Cnt     int    // transact counter
+	// tableCompactionBuilder: snapHasLastUkey, snapLastUkey, snapLastSeq, snapIter, snapKerrCnt, snapDropCnt, kerrCnt, dropCnt
+	SnapHasLast  bool
+	SnapLastUkey []byte
+	SnapLastSeq  uint64
+	SnapIter     int
+	SnapKerr     int
+	SnapDrop     int
+	Kerr, Drop   int
+	HasWriter    bool // b.tw != nil after run (cleanup must have dropped it)
+	// compaction: snapGPI, snapSeenKey, snapGPOverlappedBytes, snapTPtrs[sourceLevel+2:]
+	SnapGPI     int
+	SnapSeen    bool
+	SnapGPBytes int64
+	SnapTPtrs   []int
+	NTables     int // len(b.rec.addedTables)
+}
+
+// VerifBuild is one driven compaction.
+type VerifBuild struct {
+	Version       []VerifTable
+	SourceLevel   int
+	T0, T1, GP    []VerifTable
+	InEntries     [][]VerifEntry // entries of T0 ++ T1
+	MaxGPOverlaps int64
+	MinSeq        uint64
+	TableSize     int
+	Strict        bool
+	Attempts      []VerifBuildAttempt
+	Done          bool // the last attempt returned nil
+	Outputs       []VerifTable
+	OutEntries    [][]VerifEntry
+	Panic         string
+}
+
+func verifTablesOf(level int, tf tFiles) []VerifTable {
+	var out []VerifTable
+	for _, t := range tf {
+		out = append(out, VerifTable{Level: level, Num: t.fd.Num, Size: t.size,
+			Imin: append([]byte(nil), t.imin...), Imax: append([]byte(nil), t.imax...)})
+	}
+	return out
+}
+
+// VerifBuilderDrive builds the compaction of the whole source level (as CompactRange would for that level) on the
+// current version and runs its builder up to maxAttempts times.  arm(i) is called before attempt i, disarm() after it.
+// Returns nil when the level has no tables.
+func VerifBuilderDrive(db *DB, level, tableSize int, strict bool, maxAttempts int, arm func(attempt int), disarm func()) (res *VerifBuild) {
+	c := db.s.getCompactionRange(level, nil, nil, true)
+	if c == nil {
+		return nil
+	}
+	defer c.release()
+	res = &VerifBuild{
+		Version:       verifDumpLevels(c.v.levels),
+		SourceLevel:   c.sourceLevel,
+		T0:            verifTablesOf(c.sourceLevel, c.levels[0]),
+		T1:            verifTablesOf(c.sourceLevel+1, c.levels[1]),
+		GP:            verifTablesOf(c.sourceLevel+2, c.gp),
+		MaxGPOverlaps: c.maxGPOverlaps,
+		MinSeq:        db.minSeq(),
+		TableSize:     tableSize,
+		Strict:        strict,
+	}
+	for _, t := range append(append([]VerifTable{}, res.T0...), res.T1...) {
+		es, err := verifReadTable(db.s.tops, t)
+		if err != nil {
+			res.Panic = fmt.Sprintf("cannot read input table %d: %v", t.Num, err)
+			return res
+		}
+		res.InEntries = append(res.InEntries, es)
+	}
+	rec := &sessionRecord{}
+	var stat cStatStaging
+	b := &tableCompactionBuilder{s: db.s, c: c, rec: rec, stat1: &stat, minSeq: res.MinSeq, strict: strict, tableSize: tableSize}
+	defer func() {
+		if x := recover(); x != nil {
+			res.Panic = fmt.Sprintf("%v", x)
+		}
+		if disarm != nil {
+			disarm()
+		}
+		for _, at := range rec.addedTables {
+			db.s.tops.remove(storage.FileDesc{Type: storage.TypeTable, Num: at.num})
+		}
+	}()
+	for i := 0; i < maxAttempts; i++ {
+		if arm != nil {
+			arm(i)
+		}
+		cnt := compactionTransactCounter(0)
+		err := b.run(&cnt)
+		if disarm != nil {
+			disarm()
+		}
+		a := VerifBuildAttempt{
+			Cnt:          int(cnt),
+			SnapHasLast:  b.snapHasLastUkey,
+			SnapLastUkey: append([]byte(nil), b.snapLastUkey...),
+			SnapLastSeq:  b.snapLastSeq,
+			SnapIter:     b.snapIter,
+			SnapKerr:     b.snapKerrCnt,
+			SnapDrop:     b.snapDropCnt,
+			Kerr:         b.kerrCnt,
+			Drop:         b.dropCnt,
+			HasWriter:    b.tw != nil,
+			SnapGPI:      c.snapGPI,
+			SnapSeen:     c.snapSeenKey,
+			SnapGPBytes:  c.snapGPOverlappedBytes,
+			NTables:      len(rec.addedTables),
+		}
+		if n := c.sourceLevel + 2; n < len(c.snapTPtrs) {
+			a.SnapTPtrs = append([]int(nil), c.snapTPtrs[n:]...)
+		}
+		if err != nil {
+			a.Err = err.Error()
+			a.Corrupt = errors.IsCorrupted(err)
+		}
+		res.Attempts = append(res.Attempts, a)
+		if err == nil {
+			res.Done = true
+			break
+		}
+		if a.Corrupt {
+			break
+		}
+	}
+	for _, at := range rec.addedTables {
+		t := VerifTable{Level: at.level, Num: at.num, Size: at.size,
+			Imin: append([]byte(nil), at.imin...), Imax: append([]byte(nil), at.imax...)}
+		es, err := verifReadTable(db.s.tops, t)
+		if err != nil {
+			res.Panic = fmt.Sprintf("cannot read output table %d: %v", t.Num, err)
+			return res
+		}
+		res.Outputs = append(res.Outputs, t)
+		res.OutEntries = append(res.OutEntries, es)
+	}
+	return res
+}
